@@ -118,6 +118,9 @@ class CallMixin:
             top_inline = self.spec.inline if self.spec is not None else set()
             short = self.prog.short(name)[1] if fn else name
             want_inline = short in caller_inline or short in top_inline
+            if self.spec is not None and self.spec.forks and any(name.endswith(f.strip()) for f in self.spec.forks):
+                # a fork/join combinator (taskgroup.Do): its function-literal arguments run in parallel
+                self.record_fork(ctx, ins, st, [a for a in args if isinstance(a, ClosureV)], False)
             # in-context contract of an external callee (an assumption, listed): `call <callee>:` in the caller's contract
             for sp_ in (ctx['spec'], self.spec):
                 if sp_ is not None and getattr(sp_, 'calls', None):
@@ -359,7 +362,10 @@ class CallMixin:
             cn.update(extra_cells)
         allnames = dict(self.base_names) if spec.kind == 'param' else {}
         allnames.update(names)
-        env = Env(allnames, st, self.entry_state, cn, self.pkg)
+        pc_ = (spec.kind == 'param')     # in-function specs speak about the current values of the function's variables
+        env = Env(allnames, st, self.entry_state, cn, self.pkg, prefer_cells=pc_)
+        if pc_:
+            env.bound = set(names)
         pos = ins.get('pos', '')
         for c in spec.requires:
             try:
@@ -389,7 +395,9 @@ class CallMixin:
             rn.setdefault('err', (vals[-1], rtypes[-1]))
         n2 = dict(allnames)
         n2.update(rn)
-        env2 = Env(n2, st, pre, cn, self.pkg)
+        env2 = Env(n2, st, pre, cn, self.pkg, prefer_cells=pc_)
+        if pc_:
+            env2.bound = set(names) | set(rn)
         for c in spec.ensures:
             try:
                 mwhen = re.match(r'^when\s+(\w+)\s+is\s+([^:]+):\s*(.*)$', c.text, re.S)
@@ -575,9 +583,20 @@ class CallMixin:
         return getattr(self.specs, 'ghostfields', {})
 
     # ------------------------------------------------------------ goroutines
+    def record_fork(self, ctx, ins, st, tasks, multi):
+        if self.mute or not tasks:
+            return
+        self.fork_groups.append({'tasks': tasks, 'multi': multi, 'state': st.copy(), 'nhyps': len(self.hyps),
+                                 'pos': ins.get('pos', '')})
+
+    def in_loop(self, ctx):
+        b = ctx.get('block')
+        return any(b in body for body in ctx['cfg'].loops.values())
+
     def on_go(self, ctx, ins, st, call, fv, args):
         self.spawned = True
         if isinstance(fv, ClosureV):
+            self.record_fork(ctx, ins, st, [fv], self.in_loop(ctx))
             vol = set(st.volatile)
             for cid in self.closure_cells(fv, written_only=True):
                 vol.add(cid)
@@ -735,6 +754,7 @@ class CallMixin:
         self.chanspecs = {}
         self.closespecs = {}
         self.recvspecs = {}
+        self.fork_groups = []
         self.chan_pending = []
         self.lemmas_used = set()
         self.go_sites = []
@@ -898,6 +918,9 @@ class CallMixin:
         self.exit_state = ex
         self.exit_env = envx
         self.check_frame(ex, env, envx, spec)
+        if spec is not None and 'own' in spec.flags:
+            from .frames import own_obligations
+            own_obligations(self)
 
     def check_frame(self, ex, env0, envx, spec):
         """everything the function changed and a caller can see must be covered by its `modifies` clause
